@@ -3,7 +3,7 @@
   builtin_string.go: fromCharCode (l.37), charAt (l.45), charCodeAt (l.55), concat (l.65),
   lastIndexRune/indexRune/utf16Length (l.75-93), indexOf (l.95), lastIndexOf (l.118), split (l.322, string
   separator branch l.399), slice (l.427), substring (l.439), substr (l.450), toLowerCase/toUpperCase (l.489/494),
-  trim (l.502), localeCompare (l.532);  type_string.go: newStringObject (l.54), stringAt (l.69),
+  trim (l.502), localeCompare (l.532);  Go strings.ToLower/ToUpper via the dumped unicode tables;  type_string.go: newStringObject (l.54), stringAt (l.69),
   stringGetOwnProperty (l.106);  otto_.go: stringToArrayIndex (l.33), valueOfArrayIndex (l.57),
   valueToRangeIndex (l.74), rangeStartEnd (l.98), rangeStartLength (l.116);  value_number.go: Value.number (l.149);
   value_string.go: Value.string (l.50);  runtime.go: checkObjectCoercible (l.182);
@@ -16,6 +16,7 @@
 import OttoVerif.Base.Str
 import OttoVerif.Base.GoStd
 import OttoVerif.C05.Model
+import OttoVerif.C09.CaseTables
 namespace OttoVerif.C09
 open OttoVerif.F64 OttoVerif.Str OttoVerif.C05
 
@@ -388,5 +389,25 @@ def localeCompare (E : Env) (r : Recv) (args : List Val) : Res :=
   let this := thisString E r
   let that := toStr E (argAt args 0)
   if bytesLt this that then .int (-1) else if this = that then .int 0 else .int 1
+
+/-- unicode.ToLower / unicode.ToUpper (table dumped from the Go toolchain, C09/CaseTables) -/
+def goLower (r : Nat) : Nat :=
+  match CaseTables.goCase.find? (fun e => e.1 == r) with
+  | some (_, l, _) => l
+  | none => r
+def goUpper (r : Nat) : Nat :=
+  match CaseTables.goCase.find? (fun e => e.1 == r) with
+  | some (_, _, u) => u
+  | none => r
+
+/-- builtinStringToLowerCase: strings.ToLower maps every rune (code point) through unicode.ToLower -/
+def toLowerCase (E : Env) (r : Recv) (_args : List Val) : Res :=
+  if !coercible r then .throwType else
+  .str (U (encodeRunes ((decodeRunes (thisString E r)).map goLower)))
+
+/-- builtinStringToUpperCase -/
+def toUpperCase (E : Env) (r : Recv) (_args : List Val) : Res :=
+  if !coercible r then .throwType else
+  .str (U (encodeRunes ((decodeRunes (thisString E r)).map goUpper)))
 
 end OttoVerif.C09
